@@ -19,6 +19,7 @@ Parts
   probe   a few fixed documented examples (tutorial P example, "fact 6", changelog statement about P[X].ANY).
 """
 import itertools
+import typing
 from collections import Counter
 
 from vkit import env, runner
@@ -1356,9 +1357,43 @@ def check_nm(ctx, case):
                       f"{direction} gave {got!r}, expected {exp!r}")
 
 
+# ===================================================================================== generic_arg positions inside converters
+CVSrcPrice = _dc.make_dataclass("CVSrcPrice", [("amount", int), ("currency", str)])
+CVDstPrice = _dc.make_dataclass("CVDstPrice", [("amount", int), ("currency", str)])
+CVSrc = _dc.make_dataclass("CVSrc", [("by_key", typing.Dict[str, CVSrcPrice]), ("items", typing.List[CVSrcPrice])])
+CVDst = _dc.make_dataclass("CVDst", [("by_key", typing.Dict[str, CVDstPrice]), ("items", typing.List[CVDstPrice])])
+CV_PREDS = {
+    # predicate -> (constant lands in the dict values, constant lands in the list items)
+    "dict_value_pos1": (lambda: P[CVDst].by_key.generic_arg(1, CVDstPrice).currency, (True, False)),
+    "dict_key_pos0_model": (lambda: P[CVDst].by_key.generic_arg(0, CVDstPrice).currency, (False, False)),
+    "list_item_pos0": (lambda: P[CVDst].items.generic_arg(0, CVDstPrice).currency, (False, True)),
+    "list_item_pos1": (lambda: P[CVDst].items.generic_arg(1, CVDstPrice).currency, (False, False)),
+    "any_pos1": (lambda: P.generic_arg(1, CVDstPrice).currency, (True, False)),
+    "model_field": (lambda: P[CVDstPrice].currency, (True, True)),
+    "under_by_key": (lambda: P[CVDst].by_key[CVDstPrice].currency, (True, False)),
+}
+
+
+def check_convgp(ctx, case):
+    from adaptix.conversion import get_converter, link_constant  # noqa: PLC0415
+    make_pred, (in_dict, in_list) = CV_PREDS[case["pred"]]
+    ctx.case(["convgp", case["pred"]], True, sample=case, labels=["part:converter_generic_arg", f"cv:{case['pred']}"])
+    src = CVSrc({"k": CVSrcPrice(1, "EUR")}, [CVSrcPrice(2, "USD")])
+    exp = CVDst({"k": CVDstPrice(1, "XXX" if in_dict else "EUR")}, [CVDstPrice(2, "XXX" if in_list else "USD")])
+    try:
+        got = get_converter(CVSrc, CVDst, recipe=[link_constant(make_pred(), value="XXX")])(src)
+    except Exception as e:  # noqa: BLE001
+        got = describe(e)
+    if got != exp:
+        ctx.violation("converter_generic_arg", (case["pred"],), case,
+                      f"link_constant(<{case['pred']}>, value='XXX') in CVSrc -> CVDst: got {got!r}, expected {exp!r}")
+
+
 def check_case(ctx: runner.Ctx, case):
     k = case["kind"]
-    if k == "nm":
+    if k == "convgp":
+        check_convgp(ctx, case)
+    elif k == "nm":
         check_nm(ctx, case)
     elif k == "facade":
         check_facade(ctx, case)
@@ -1417,6 +1452,9 @@ def explore(ctx: runner.Ctx):
         n_nm += 1
         if i % ctx.nshards == ctx.shard:
             runner.guarded(ctx, lambda c: check_case(ctx, c), ncase)
+    if ctx.shard == 0:
+        for pname in CV_PREDS:
+            runner.guarded(ctx, lambda c: check_case(ctx, c), {"kind": "convgp", "pred": pname})
     ctx.mark_exhaustive(f"name_mapping predicates: {n_nm} cases = {len(NM_PREDS)} predicates (field id, P[Model].field, chains "
                         f"reaching above the owning model, +, |, &~, regex, type under a field) x skip / only / omit_default / "
                         f"constant and function map pairs x dump / load on a model used at two fields of an outer model")
